@@ -57,6 +57,30 @@ Example C04_ex_realtime :
   check [ mkHop OIncr 0 (Some (10, RInt 2%Z)); mkHop OIncr 15 (Some (20, RInt 1%Z)) ] = NonLin.
 Proof. vm_compute. reflexivity. Qed.
 
+(* (3b) locality (Herlihy & Wing 1990, Theorem 1): the harness splits a recorded history by key and gives
+        every projection to the checker; if every projection is linearizable the whole multi-key history is
+        linearizable w.r.t. the product of per-key specifications (mechanised: the per-key witness orders are
+        merged, always taking the head with the smallest invocation time) *)
+From ZV Require Import Lin.Locality Lin.LocalityProofs.
+Open Scope N_scope.
+
+Theorem C04_locality : forall MH : mhistory, wf_hist MH ->
+  (forall k, linearizable (proj k MH)) -> mlinearizable MH.
+Proof. exact locality. Qed.
+Print Assumptions C04_locality.
+
+Theorem C04_per_key_checks_suffice : forall MH : mhistory, wf_hist MH ->
+  (forall k, check (proj k MH) = Lin) -> mlinearizable MH.
+Proof. exact per_key_checks_suffice. Qed.
+Print Assumptions C04_per_key_checks_suffice.
+
+(* non-vacuity: a two-key history whose projections both pass the checker *)
+Example C04_ex_two_keys :
+  let MH := [ (1%nat, mkHop OIncr 0 (Some (10, RInt 1%Z))); (2%nat, mkHop (OLPush 5%Z) 3 (Some (8, RInt 1%Z)));
+              (1%nat, mkHop OGet 12 (Some (14, RBulk 1%Z))) ] in
+  wf_hist MH /\ check (proj 1 MH) = Lin /\ check (proj 2 MH) = Lin /\ check (proj 3 MH) = Lin.
+Proof. split; [repeat constructor; unfold wf_op; simpl; discriminate|vm_compute; repeat split; reflexivity]. Qed.
+
 (* ============================================================================================
    Part 2: the request path (Lin/Protocol.v) — queueRequest / propose / one agreed log / apply in
    index order on every replica / Trigger(id, result) on the replica holding the waiter / timeout /
